@@ -50,6 +50,7 @@ fn strat(ctx: &Ctx) -> impl Strategy<Value = Workload> + use<> {
             avoid,
             avoid_drop: false,
             allow_reopen: true,
+            overlap_deletes: true,
         };
         gen_workload(&mut t, &p, disk, choices)
     })
@@ -88,6 +89,25 @@ fn judge(w: &Workload, run: &Run, st: &mut Stats) -> Verdict {
     // ---- classes / non-triviality
     st.class(if w.disk.inmem { "io-inmem" } else { "io-real-directory" });
     st.class(if w.avoid { "delete-kept-apart-from-compaction" } else { "full-interleaving" });
+    {
+        // two DELETEs of different sessions naming the same row
+        let mut seen: BTreeMap<(usize, i32), usize> = BTreeMap::new();
+        let mut overlap = false;
+        for (si, sess) in w.sessions.iter().enumerate() {
+            for s in sess {
+                if let Stmt::Delete { t, ids, .. } = s {
+                    for i in ids {
+                        if *seen.entry((*t, *i)).or_insert(si) != si {
+                            overlap = true;
+                        }
+                    }
+                }
+            }
+        }
+        if overlap {
+            st.class("deletes-naming-the-same-rows");
+        }
+    }
     if w.avoid {
         st.excluded(AVOID_SWITCH);
     }
@@ -160,7 +180,7 @@ fn judge(w: &Workload, run: &Run, st: &mut Stats) -> Verdict {
                 }
             }
             // id -> the DELETE that named it
-            let mut named: BTreeMap<i64, &StmtRun> = BTreeMap::new();
+            let mut named: BTreeMap<i64, Vec<&StmtRun>> = BTreeMap::new();
             for s in &run.stmts {
                 match &s.stmt {
                     Stmt::Insert { t: tt, rows } if *tt == t => {
@@ -179,7 +199,7 @@ fn judge(w: &Workload, run: &Run, st: &mut Stats) -> Verdict {
                     if *tt == t {
                         for i in ids {
                             must.remove(&(*i as i64));
-                            named.insert(*i as i64, s);
+                            named.entry(*i as i64).or_default().push(s);
                         }
                     }
                 }
@@ -199,7 +219,7 @@ fn judge(w: &Workload, run: &Run, st: &mut Stats) -> Verdict {
                 if universe.get(&id) != Some(&v) {
                     return fail(format!("c09:row-invented:{}", names[cp]), describe(format!("row ({id},{v}) was never inserted")));
                 }
-                if let Some(d) = named.get(&id) {
+                for d in named.get(&id).into_iter().flatten() {
                     if acked(d) {
                         let msg = describe(format!("row ({id},{v}) is back although `{}` was acknowledged", d.sql));
                         if let Some(o) = overlap(run, d, run.table_ids[t]) {
